@@ -520,16 +520,16 @@ Section HistFrame.
      the one _record_history wrote at its start *)
   Theorem exec_external_hist t tgt ev s0 :
     let d := find_domain m (t_src t) tgt in
-    let xs := rev (sort_by (lt_depth_id m) (exit_set_h m (s_cfg s0) (s_hist s0) d tgt)) in
+    let xs := rev (sort_by (lt_depth_id m) (ext_exit_set m (s_cfg s0) (s_hist s0) d tgt)) in
     s_hist (fst (exec_external eng pr m t tgt ev s0)) = s_hist (record_history m xs s0).
   Proof.
     cbv zeta. unfold exec_external.
-    set (d := find_domain m (t_src t) tgt). set (X := exit_set_h m (s_cfg s0) (s_hist s0) d tgt).
+    set (d := find_domain m (t_src t) tgt). set (X := ext_exit_set m (s_cfg s0) (s_hist s0) d tgt).
     set (xs := rev (sort_by (lt_depth_id m) X)).
     set (r0 := record_history m xs s0).
     match goal with |- s_hist (fst (match ?b s0 with _ => _ end)) = _ => set (body := b) end.
     set (rest := (fun s => exec_actions eng pr (t_actions t) ev s) ;;
-                 enter eng pr m (if is_history m tgt then [] else path_to m tgt d) (Some ev) ;;
+                 enter eng pr m (if is_history m tgt then [] else ext_path m tgt d) (Some ev) ;;
                  (if is_history m tgt then match combined_path m d (if is_history m tgt then resolve_history m (s_hist s0) tgt else []) with
                                             | [] => ret | cp => enter eng pr m cp (Some ev) end else ret)).
     assert (Hbody : body s0 = (exit_rest xs (Some ev) ;; rest) r0).
@@ -570,6 +570,7 @@ Section HistStep.
     assert (HdC : In d (s_cfg s0)) by now apply (domain_active m Hwf).
     pose proof (external_effect m eng pr t tgt ev s0 s1 Hex) as Heff. cbv zeta in Heff. fold d in Heff. rewrite Hh in Heff.
     rewrite (entered_nil (S (size m)) m) in Heff. unfold add_all at 2 in Heff. cbn [fold_left] in Heff.
+    rewrite (ext_exit_set_nonroot m _ _ d tgt Hne) in Heff.
     rewrite Heff. now apply (history_formula_legal m Hwf Hgood).
   Qed.
 
@@ -592,8 +593,10 @@ Section HistStep.
     destruct (history_formula_good m Hwf Hgood (s_cfg s0) (s_hist s0) d tgt HL HH HdC Ht Hh Hst Hd) as [_ [Hnd Hnot]].
     destruct (AccountP.external_log m eng pr t tgt ev s0 s1 (L_nodup m _ HL) Hex) as [seg [Elog [Elv Een]]].
     cbv zeta in Elv, Een. fold d in Elv, Een. rewrite Hh in Een. rewrite (entered_nil (S (size m)) m) in Een. cbn [app] in Een.
+    rewrite (ext_exit_set_nonroot m _ _ d tgt Hne) in Elv.
     pose proof (external_effect m eng pr t tgt ev s0 s1 Hex) as Heff. cbv zeta in Heff. fold d in Heff. rewrite Hh in Heff.
     rewrite (entered_nil (S (size m)) m) in Heff. unfold add_all at 2 in Heff. cbn [fold_left] in Heff.
+    rewrite (ext_exit_set_nonroot m _ _ d tgt Hne) in Heff.
     set (X := exit_set_h m (s_cfg s0) (s_hist s0) d tgt) in *.
     set (xs := rev (sort_by (lt_depth_id m) X)) in *.
     set (N := entered (S (size m)) m (combined_path m d (resolve_history m (s_hist s0) tgt))) in *.
@@ -639,3 +642,49 @@ Section Restores.
     clear. revert a. induction r as [|b r IH]; intros a; [now left|]. right. apply IH.
   Qed.
 End Restores.
+
+(* ---- a transition that targets the machine root restarts the machine ---- *)
+Section RootTarget.
+  Variable m : machine.
+  Hypothesis Hwf : wf m = true.
+  Hypothesis Hgood : good_initials m = true.
+
+  Lemma remove_all_super l C : incl C l -> remove_all l C = [].
+  Proof.
+    intros Hi. rewrite remove_all_filter.
+    assert (G : forall C', incl C' l -> filter (fun y => negb (mem y l)) C' = []).
+    { induction C' as [|y r IH]; intros Hi'; [reflexivity|]. simpl.
+      assert (Hy : mem y l = true) by (apply mem_In, Hi'; now left). rewrite Hy. simpl. apply IH. intros z Hz. apply Hi'. now right. }
+    now apply G.
+  Qed.
+
+  Lemma root_ok_list : ok_list m [0].
+  Proof.
+    pose proof (wf_size m Hwf) as H0. intros x [<-|[]]. split; [exact H0|].
+    assert (Hp : parent m 0 = None).
+    { destruct (parent m 0) as [q|] eqn:Hq; [|reflexivity]. destruct (parent_props m Hwf 0 q H0 Hq). lia. }
+    split.
+    - unfold parents_of. simpl. rewrite Hp. reflexivity.
+    - intros c _. unfold with_parent. simpl. rewrite Hp. reflexivity.
+  Qed.
+
+  (* what entering the root from nothing activates is a legal configuration *)
+  Theorem root_formula_legal : Legal m (add_all (entered (S (size m)) m [0]) []).
+  Proof.
+    rewrite (entered_ok m Hwf (S (size m)) [0] root_ok_list). cbn [map List.concat]. rewrite app_nil_r.
+    pose proof (descent_legal m Hwf Hgood (S (size m)) (Nat.lt_succ_diag_r _)) as HL.
+    rewrite (add_all_fresh (descent (S (size m)) m 0) []); [exact HL|]. simpl. apply (L_nodup m _ HL).
+  Qed.
+
+  Theorem root_transition_legal eng pr t ev s0 s1 :
+    exec_external eng pr m t 0 ev s0 = (s1, None) -> Legal m (s_cfg s1).
+  Proof.
+    intros Hex.
+    pose proof (external_effect m eng pr t 0 ev s0 s1 Hex) as Heff. cbv zeta in Heff.
+    rewrite (good_root m Hgood) in Heff. rewrite (entered_nil (S (size m)) m) in Heff. unfold add_all at 1 in Heff. cbn [fold_left] in Heff.
+    rewrite ext_exit_set_root, ext_path_root in Heff.
+    rewrite (remove_all_super (rev (sort_by (lt_depth_id m) (s_cfg s0))) (s_cfg s0)) in Heff.
+    - rewrite Heff. exact root_formula_legal.
+    - intros y Hy. rewrite <- in_rev. now apply (sort_by_In (lt_depth_id m)).
+  Qed.
+End RootTarget.
